@@ -18,7 +18,11 @@ MANIFEST = dict(
          "model's m_pwv / version_of / m_put on every store, key, version and value, both build profiles "
          "; C16_mem_batch_is_source: MemoryKVVStore::put_batch (the staged map, the loop with continue / return, the "
          "merge) likewise, equal to the model's m_batch on every sorted store "
-         "(get_prefix and the other two stores are not translated).  The models are "
+         "; C16_cloud_staging_is_source: CloudKVVStore::put_with_version / put / delete (cloud.rs, with L = "
+         "MemoryKVVStore: the commit-log guard with its poisoned flag, as_mut().expect, the staged-version test, the calls "
+         "into the local store) equal to the model's c_pwv / c_put on every state; the state after a panic (the poisoned "
+         "mutex) is not represented on the generated side "
+         "(get_prefix, the transaction functions of the cloud store and RedbKVVStore are not translated).  The models are "
          "run against the three real stores on identical request sequences on every run (breadth-first over a small "
          "alphabet with state de-duplication, random transaction-shaped histories, a malformed stream, a corpus of past "
          "disagreements), and monitors check each clause of the property on the implementations' answers.",
@@ -45,7 +49,7 @@ PINNED = [
     "C16_cloud_restart_local_version_never_lowered",
     "C16_restore_repeated_key_refused", "C16_plain_restore_repeated_key_refused", "C16_nonvacuous_repeated_key",
     "C16_nonvacuous_plain", "C16_nonvacuous_cloud", "C16_nonvacuous_restore",
-    "C16_mem_version_rule_is_source", "C16_mem_batch_is_source",
+    "C16_mem_version_rule_is_source", "C16_mem_batch_is_source", "C16_cloud_staging_is_source",
 ]
 
 # the one class of behaviour that may be listed in KNOWN_FINDINGS.json (id below): a commit reached
@@ -81,9 +85,10 @@ def run(res):
     try:
         lib.proof_stage(res, "C16.v", "Props.C16", PINNED, pre=regen)
     except gen_rustfn.GenError as e:
-        res.violation("the translator cannot read MemoryKVVStore::put_with_version / get_version / put / delete / put_batch or a "
+        res.violation("the translator cannot read MemoryKVVStore::put_with_version / get_version / get / put / delete / put_batch, "
+                      "CloudKVVStore::put_with_version / put / delete or a "
                       "declaration they use (a construct outside its fragment): %s" % e,
-                      {"translator": "tools/gen_rustfn.py", "source": "vls-persist/src/kvv/memory.rs (+ kvv.rs, vls-core/src/persist/mod.rs)",
+                      {"translator": "tools/gen_rustfn.py", "source": "vls-persist/src/kvv/memory.rs, cloud.rs (+ kvv.rs, vls-core/src/persist/mod.rs)",
                        "error": str(e), "theorem": "C16_mem_version_rule_is_source"}, has_input=False)
     res.coverage["translated_from_source"] = report
     cov = res.coverage
